@@ -47,7 +47,13 @@ def run(prog, tier) -> Result:
         "agreement); every row of the documentation tables is compared with the computed scale, and the temperature "
         "documentation with the converter table. Arbitrary amounts then convert by the ratio of scales (C01).")
     res.trusted = ["oracle/si_reference.json, oracle/si_prefixes.json, oracle/temperature.json (hand-entered)"]
-    cat = Catalogue(prog)
+    from ..catalogue import ModuleRaises
+    try:
+        cat = Catalogue(prog)
+    except ModuleRaises as e:
+        res.ob("R20.1", "quantity.predefined", "the catalogue can be imported", False, str(e),
+               sig="catalogue module raises at import time")
+        return res
     ref = json.load(open(os.path.join(VERIF, "oracle", "si_reference.json"), encoding="utf-8"))["types"]
     res.functions.add("quantity.predefined (module-level declarations)")
     res.extra["catalogue_statements"] = cat.statements
